@@ -74,8 +74,12 @@ def run(ctx):
         polc = rng.choice([2, 2, 1])
         data = da.from_array(x, chunks=(max(1, L // 2), rng.choice([1, nchan]), polc) + tuple(rng.choice([1, t]) for t in tail)) if dask else x
         start = Time('2021-03-04T05:06:07.5', precision=9) if rng.random() < 0.7 else None
+        # the basis label as it arrives in practice: a literal, or an EQUAL string that is another object (parsed from a header, a NumPy
+        # string, the result of a string operation) - behaviour may depend on the label's value only
+        label = rng.choice([basis, ''.join(list(basis)), np.str_(basis), (' ' + basis.upper() + ' ').strip().lower()])
         z = pb.DualPolarizationSignal(data, sample_rate=1 * u.MHz, center_freq=1.4 * u.GHz, freq_align=rng.choice(['bottom', 'center', 'top']),
-                                      pol_type=basis, start_time=start, meta={'k': k})
+                                      pol_type=label, start_time=start, meta={'k': k})
+        ctx.count('label:' + ('literal' if label is basis else type(label).__name__ + '_copy'))
         inp = dict(shape=list(x.shape), dtype=np.dtype(cdt).name, basis=basis, dask=dask, amp=amp, case=k)
         ctx.seen(inp)
         ctx.count('basis:' + basis)
